@@ -37,10 +37,10 @@ def resolve (h : Heap) : Path → Option Id
 def setObj (h : Heap) (i : Id) (o : Obj) : Heap := { h with obj := fun j => if j = i then some o else h.get j }
 
 def allocObj (h : Heap) (o : Obj) : Heap :=
-  { size := h.size + 1, obj := fun j => if j = h.size then some o else h.get j, roots := ⟨true, h.size⟩ :: h.roots }
+  { size := h.size + 1, obj := fun j => if j = h.size then some o else h.get j, roots := ⟨true, h.size, false⟩ :: h.roots }
 
 def execHeap (h : Heap) : Step → Heap
-  | .alloc kind fields => allocObj h { kind, strong := (fields.filterMap (resolve h)).map (fun i => ⟨true, i⟩) }
+  | .alloc kind fields => allocObj h { kind, strong := (fields.filterMap (resolve h)).map (fun i => ⟨true, i, false⟩) }
   | .store p k q =>
     match resolve h p with
     | none => h
@@ -49,11 +49,11 @@ def execHeap (h : Heap) : Step → Heap
       | none => h
       | some t =>
         match h.get i with
-        | some o => setObj h i { o with strong := o.strong.set k ⟨true, t⟩ }
+        | some o => setObj h i { o with strong := o.strong.set k ⟨true, t, false⟩ }
         | none => h
   | .root p =>
     match resolve h p with
-    | some i => { h with roots := ⟨true, i⟩ :: h.roots }
+    | some i => { h with roots := ⟨true, i, false⟩ :: h.roots }
     | none => h
   | .unroot n => { h with roots := h.roots.eraseIdx n }
   | .emit _ => h
@@ -234,7 +234,7 @@ theorem exec_mreach (h : Heap) (st : Step) (i : Id) (m : MReach (execHeap h st) 
   cases st with
   | alloc kind fields =>
     simp only [execHeap] at m
-    generalize hO : ({ kind := kind, strong := (fields.filterMap (resolve h)).map (fun i => (⟨true, i⟩ : Edge)) } : Obj) = onew at m
+    generalize hO : ({ kind := kind, strong := (fields.filterMap (resolve h)).map (fun i => (⟨true, i, false⟩ : Edge)) } : Obj) = onew at m
     induction m with
     | root he hs =>
       rename_i e
@@ -277,7 +277,7 @@ theorem exec_mreach (h : Heap) (st : Step) (i : Id) (m : MReach (execHeap h st) 
         | some o =>
           simp only [hp, hq, ho] at m
           have hsome : (h.get ip).isSome := by simp [ho]
-          generalize hO : ({ o with strong := o.strong.set k ⟨true, t⟩ } : Obj) = onew at m
+          generalize hO : ({ o with strong := o.strong.set k ⟨true, t, false⟩ } : Obj) = onew at m
           have hlive : ∀ j, ((setObj h ip onew).get j).isSome = (h.get j).isSome := by
             intro j; rw [setObj_get h ip onew hsome]
             by_cases c : j = ip
@@ -305,7 +305,7 @@ theorem exec_mreach (h : Heap) (st : Step) (i : Id) (m : MReach (execHeap h st) 
     | none => simp only [hp] at m; exact m
     | some ip =>
       simp only [hp] at m
-      generalize hH : ({ h with roots := ⟨true, ip⟩ :: h.roots } : Heap) = hnew at m
+      generalize hH : ({ h with roots := ⟨true, ip, false⟩ :: h.roots } : Heap) = hnew at m
       induction m with
       | root he hs =>
         subst hH
